@@ -127,6 +127,21 @@ func (m *mixedSpace) Ops(w *World) []Op {
 	return ops
 }
 
+// collEventSpecs: collision universes (every step-th order-isomorphism class of digest assignments of 3 keys:
+// inline groups, external groups, groups on deeper levels, digest-less lists) whose alphabet contains the
+// given events, depth-bounded; collision groups are thereby operated on after being decoded from registers.
+func collEventSpecs(r *Run, oracles []string, step, depth int) []Spec {
+	var cs []Spec
+	for ai, a := range DigestAssignments(3) {
+		if ai%step != 0 {
+			continue
+		}
+		cs = append(cs, Spec{Name: fmt.Sprintf("coll-events-T256-a%d", ai), Kind: "coll", T: 256, Keys: 3, Classes: []string{"t", "s60"},
+			Oracles: oracles, Digests: a, Limit: 255, Depth: depth, Extra: map[string]int{"limit": 1}})
+	}
+	return cs
+}
+
 func trimWrap(cl string) string {
 	for len(cl) > 2 && cl[:2] == "s:" {
 		cl = cl[2:]
@@ -273,6 +288,7 @@ func init() {
 			for _, sc := range []string{"map-grow-lim", "map-grow-desc", "arr-append-lim", "arr-mixed"} {
 				specs = append(specs, TrajSpecs(r.ID, sc, 20, 4, 17, 3, 2, 256, []string{"t", "limM"}, []string{"crash", "ev:commit1"})...)
 			}
+			specs = append(specs, collEventSpecs(r, []string{"crash", "ev:commit1"}, 5, 4)...)
 		} else {
 			specs = []Spec{
 				{Name: "mixed-T256-L3", Kind: "mixed", T: 256, L: 3, Keys: 2, Classes: []string{"t", "limA+", "A", "s:M:t"}, Oracles: or, Depth: 7, Extra: map[string]int{"temp": 1}},
@@ -283,6 +299,7 @@ func init() {
 				specs = append(specs, TrajSpecs(r.ID, sc, 100, 5, 101, 5, 2, 256, []string{"t", "limA"}, []string{"crash", "ev:commit"})...)
 				specs = append(specs, TrajSpecs(r.ID, sc, 100, 10, 101, 30, 3, 256, []string{"limA"}, []string{"crash", "ev:commit1"})...)
 			}
+			specs = append(specs, collEventSpecs(r, []string{"crash", "ev:commit1"}, 1, 6)...)
 		}
 		r.ExploreSpecs(specs)
 	}})
@@ -307,13 +324,15 @@ func init() {
 			for _, sc := range []string{"map-grow-lim", "map-grow-desc", "arr-append-lim", "arr-mixed"} {
 				specs = append(specs, TrajSpecs(r.ID, sc, 20, 4, 17, 3, 2, 256, []string{"t", "limM"}, or)...)
 			}
+			specs = append(specs, collEventSpecs(r, or, 2, 5)...)
 		} else {
-			specs = []Spec{
-				{Name: "cache-mixed-T256", Kind: "mixed", T: 256, L: 3, Keys: 2, Classes: []string{"t", "limA+", "A", "s:M:t"}, Oracles: or, Depth: 7},
-				{Name: "cache-split-T256", Kind: "mixed", T: 256, L: 6, Keys: 5, Classes: []string{"limM", "t"}, Oracles: or, Depth: 8},
-				{Name: "cache-compact-T256", Kind: "mixed", T: 256, L: 3, Keys: 2, Classes: []string{"Mc:t", "Mc:t,t", "t"}, Oracles: or, Depth: 7},
-				{Name: "cache-mixed-T1024", Kind: "mixed", T: 1024, L: 3, Keys: 2, Classes: []string{"t", "limA+", "A"}, Oracles: or, Depth: 6},
-			}
+			specs = collEventSpecs(r, or, 1, 6)
+			specs = append(specs,
+				Spec{Name: "cache-mixed-T256", Kind: "mixed", T: 256, L: 3, Keys: 2, Classes: []string{"t", "limA+", "A", "s:M:t"}, Oracles: or, Depth: 7},
+				Spec{Name: "cache-split-T256", Kind: "mixed", T: 256, L: 6, Keys: 5, Classes: []string{"limM", "t"}, Oracles: or, Depth: 8},
+				Spec{Name: "cache-compact-T256", Kind: "mixed", T: 256, L: 3, Keys: 2, Classes: []string{"Mc:t", "Mc:t,t", "t"}, Oracles: or, Depth: 7},
+				Spec{Name: "cache-mixed-T1024", Kind: "mixed", T: 1024, L: 3, Keys: 2, Classes: []string{"t", "limA+", "A"}, Oracles: or, Depth: 6},
+			)
 		}
 		r.ExploreSpecs(specs)
 	}})
